@@ -17,6 +17,8 @@ def run(ctx):
     lib_file.fread_exact(ctx, P)
     lib_file.offsets_cover(ctx, P)
     lib_file.read_validated(ctx, P)
+    lib_file.no_wrap(ctx, P)
+    lib_file.keys_accounted(ctx, P)
     lib_file.inventory(ctx, P)
     lib_file.layout_agreement(ctx, P)
     lib_file.error_translation(ctx, P, py)
@@ -34,6 +36,8 @@ def run(ctx):
     lib_gatefn.gate_loops(ctx, P)
     from . import lib_kind3
     lib_kind3.error_codes(ctx, P)
+    from . import lib_kind2
+    lib_kind2.guard_seqlen(ctx, P)
     # an altered data region is rejected by the validity gate that tskit.load passes: its id guards must be exact
     gate = {f for f in P.tus["tables"].funcs if f.startswith("tsk_table_collection_check_")}
     seen = lib_guards.analyse(ctx, P, funcs=gate)
